@@ -32,6 +32,12 @@ class Unsupported(Exception):
     pass
 
 
+# names with a fixed meaning in the subset: a local (or assignment) with one of these names would
+# silently change what KEYS[1], redis.call, tonumber ... mean
+RESERVED = {"KEYS", "ARGV", "redis", "math", "tonumber", "tostring", "string", "table", "cjson",
+            "pcall", "error", "type", "unpack", "select", "next", "pairs", "ipairs", "_G"}
+
+
 # ------------------------------------------------------------------------------- lexer
 KEYWORDS = {"local", "if", "then", "elseif", "else", "end", "return", "and", "or", "not",
             "nil", "true", "false",
@@ -127,6 +133,8 @@ class Parser:
         if k == "kw" and x == "local":
             self.next()
             name = self.expect("name")
+            if name in RESERVED:
+                self.err("local %s shadows a built-in name" % name)
             if self.at("op", ","):
                 self.err("multiple assignment is not supported")
             if self.at("op", "="):
@@ -163,6 +171,8 @@ class Parser:
             # assignment or call statement
             if self.t[self.i + 1][0] == "op" and self.t[self.i + 1][1] == "=":
                 name = self.next()[1]
+                if name in RESERVED:
+                    self.err("assignment to built-in name %s" % name)
                 self.next()
                 return ("assign", name, self.exp())
             e = self.exp()
